@@ -25,3 +25,8 @@ CLAIMED["C02"] = dict(engine="E1", category="exploration", design_ref="DESIGN.md
     technique="exhaustive enumeration of ALL images over a signal-to-noise alphabet on small grids vs a breadth-first flood-fill reference",
     text="Every image over alphabets of 2-10 signal-to-noise letters (incl. NaN, negative, exact-threshold ties) on every grid up to 3x3 / 2x3 (quick) and 3x4 / 4x4 / 3x5 (thorough), each through three (image, background, noise) realisations and two seeds, is passed to the real find_islands and compared as a set of (pixel set, bounding box) with an independent BFS; disjointness, blank-free membership and seed monotonicity are checked directly.",
     note="Grid sizes are bounded (<= 15 pixels); thresholds fixed at flood 4, seeds 5 and 7; the component-origin clause is covered on scenes in C03/C11.")
+ENGINES[0]["serves_properties"] += ["C04"]
+CLAIMED["C04"] = dict(engine="E1", category="exploration", design_ref="DESIGN.md section 3, C04",
+    technique="bounded-exhaustive enumeration of every free-parameter subset x parameter lattice vs complex-step derivatives of an independent model and the inverse Fisher matrix",
+    text="For every lattice component (60) every one of the 63 free-parameter subsets, for 6-12 two-component models every one of the 4095 subset pairs, and for 3-4 components the 4^n structured subsets, the real jacobian / lmfit_jacobian / covar_errors are executed on full, NaN-masked and single-row pixel sets with and without errs / B / C weighting and compared with complex-step derivatives (exact to rounding) and sqrt(diag(inv(Fisher))) at the parameter's own global index.",
+    note="Trusts numpy linear algebra and the 20-line reference model; the error clause is skipped for ill-conditioned Fisher matrices (cond > 1e10).")
